@@ -199,7 +199,7 @@ PARKED = _parked()
 
 def contracts():
     from contracts import c10_structured, c10_subset, c10_tables
-    return [Interfaces(), Boundaries(), Refined(), RefinedBoundaries(), Opposite(), GetItem()] + c10_structured.contracts() + c10_subset.contracts() + c10_tables.contracts() + (PARKED if os.environ.get('VERIF_C10_PARKED') else [])
+    return [Interfaces(), Boundaries(), Refined(), RefinedBoundaries(), Opposite(), GetItem()] + c10_structured.contracts() + c10_subset.contracts() + c10_tables.contracts() + PARKED  # PARKED: the empty-subset contract (failed on the pinned commit, repaired) and the two-elements-per-period families (recorded known findings)
 
 
 TRUSTED = ['pyvc symbolic executor; generator DimAxis.boundaries evaluated eagerly; Axis.map as (i + ielem) mod period (proved inverse of unmap in C11)',
